@@ -287,8 +287,8 @@ Proof. apply vr_qsum. Qed.
 Definition orc_scaled (o o' : oracle) : Prop :=
   o_Tc o' = o_Tc o /\ (forall T, o_Psat o' T = o_Psat o T) /\ (forall P, o_Tsat o' P = o_Tsat o P) /\
   o_lim_light o' = o_lim_light o /\ o_lim_heavy o' = o_lim_heavy o /\
-  (forall t, o_bubble o' t = o_bubble o t) /\ (forall t, o_dew o' t = o_dew o t) /\ (forall t, o_iq o' t = o_iq o t) /\
-  (forall t, vr (o_v o t) (o_v o' t)) /\
+  (forall t a, o_bubble o' t a = o_bubble o t a) /\ (forall t a, o_dew o' t a = o_dew o t a) /\ (forall t, o_iq o' t = o_iq o t) /\
+  (forall t T P, vr (o_v o t T P) (o_v o' t T P)) /\
   (forall t s s' T P, sr s s' -> qr (o_xH o t s T P) (o_xH o' t s' T P)) /\
   (forall t g m m' T P, vr m m' -> qr (o_Hp o t g m T P) (o_Hp o' t g m' T P)) /\
   (forall t s s' H T P, sr s s' -> o_solveT o' t s' (k * H) T P == o_solveT o t s H T P).
@@ -333,8 +333,8 @@ Proof.
   intros R M. unfold clipv. rewrite (vr_length _ _ M). apply vr_map2; [|apply vr_fit; exact R|exact M].
   intros; apply clip1_qr; assumption.
 Qed.
-Lemma solve_v_sim c c' m m' : cr c c' -> mr m m' ->
-  mr (fst (solve_v orc c m)) (fst (solve_v orc' c' m')) /\ vr (snd (solve_v orc c m)) (snd (solve_v orc' c' m')).
+Lemma solve_v_sim c c' T P m m' : cr c c' -> mr m m' ->
+  mr (fst (solve_v orc c T P m)) (fst (solve_v orc' c' T P m')) /\ vr (snd (solve_v orc c T P m)) (snd (solve_v orc' c' T P m')).
 Proof.
   intros C M. unfold solve_v. cbn [fst snd]. split; [apply mr_tick; exact M|].
   destruct M as (_ & K). rewrite K. apply vr_clipv; [apply OS|apply C].
@@ -396,14 +396,14 @@ Proof.
   intros ((A & B & C & D & E) & K) T. split; [|exact K]. cbn [ms mset]. unfold srw. cbn [liq vap oth sT sP with_T].
   repeat split; auto. rewrite E. reflexivity.
 Qed.
-Lemma call_bubble_sim c c' m m' : cr c c' -> mr m m' ->
-  mr (fst (call_bubble orc c m)) (fst (call_bubble orc' c' m')) /\ snd (call_bubble orc' c' m') = snd (call_bubble orc c m).
+Lemma call_bubble_sim c c' a m m' : cr c c' -> mr m m' ->
+  mr (fst (call_bubble orc c a m)) (fst (call_bubble orc' c' a m')) /\ snd (call_bubble orc' c' a m') = snd (call_bubble orc c a m).
 Proof.
   intros C M. os. unfold call_bubble. cbn [fst snd]. split; [apply mr_tick; exact M|].
   destruct M as (_ & K). destruct C as (I & _). rewrite K, OB, I. reflexivity.
 Qed.
-Lemma call_dew_sim c c' m m' : cr c c' -> mr m m' ->
-  mr (fst (call_dew orc c m)) (fst (call_dew orc' c' m')) /\ snd (call_dew orc' c' m') = snd (call_dew orc c m).
+Lemma call_dew_sim c c' a m m' : cr c c' -> mr m m' ->
+  mr (fst (call_dew orc c a m)) (fst (call_dew orc' c' a m')) /\ snd (call_dew orc' c' a m') = snd (call_dew orc c a m).
 Proof.
   intros C M. os. unfold call_dew. cbn [fst snd]. split; [apply mr_tick; exact M|].
   destruct M as (_ & K). destruct C as (I & _). rewrite K, OD, I. reflexivity.
@@ -514,11 +514,11 @@ Proof.
     pose proof C as (_ & _ & _ & _ & _ & _ & _ & EN). rewrite EN.
     destruct (negb (cN c =? 2)); [split; [reflexivity|exact M1]|].
     destruct bubble.
-    + destruct (call_bubble_sim c c' _ _ C M1) as (M2 & EB).
-      destruct (call_bubble orc c (mset m a)) as [m2 [xa ya]]. destruct (call_bubble orc' c' (mset m' a')) as [m2' r']. cbn [fst snd] in *. subst r'.
+    + destruct (call_bubble_sim c c' sv _ _ C M1) as (M2 & EB).
+      destruct (call_bubble orc c _ (mset m a)) as [m2 [xa ya]]. destruct (call_bubble orc' c' _ (mset m' a')) as [m2' r']. cbn [fst snd] in *. subst r'.
       apply lever_sim; auto. apply mr_mset; [exact M2|]. destruct specT; [apply sr_with_T, sr_with_P|apply sr_with_P, sr_with_T]; apply M2.
-    + destruct (call_dew_sim c c' _ _ C M1) as (M2 & EB).
-      destruct (call_dew orc c (mset m a)) as [m2 [xa ya]]. destruct (call_dew orc' c' (mset m' a')) as [m2' r']. cbn [fst snd] in *. subst r'.
+    + destruct (call_dew_sim c c' sv _ _ C M1) as (M2 & EB).
+      destruct (call_dew orc c _ (mset m a)) as [m2 [xa ya]]. destruct (call_dew orc' c' _ (mset m' a')) as [m2' r']. cbn [fst snd] in *. subst r'.
       apply lever_sim; auto. apply mr_mset; [exact M2|]. destruct specT; [apply sr_with_T, sr_with_P|apply sr_with_P, sr_with_T]; apply M2.
   - split; [reflexivity|apply mr_mset; assumption].
   - destruct SS as (-> & SA). split; [reflexivity|apply mr_mset; assumption].
@@ -535,31 +535,37 @@ Proof.
     pose proof C as (_ & _ & _ & FL & FH & FV & _ & EN). rewrite EN.
     destruct (cN c =? 0); [exact M1|].
     destruct (cN c =? 1); [apply mr_mset; [exact M1|apply tp_chemical_sim; [exact C|apply M1]]|].
-    destruct (call_dew_sim c c' _ _ C M1) as (M2 & ED).
-    destruct (call_dew orc c _) as [m2 [Pd xd]]. destruct (call_dew orc' c' _) as [m2' r']. cbn [fst snd] in *. subst r'.
+    destruct (call_dew_sim c c' T _ _ C M1) as (M2 & ED).
+    destruct (call_dew orc c _ _) as [m2 [Pd xd]]. destruct (call_dew orc' c' _ _) as [m2' r']. cbn [fst snd] in *. subst r'.
     rewrite (nzb_qr _ _ FH).
     destruct (qleb P Pd && negb (nzb (Fheavy c))); [apply mr_mset; [exact M2|apply sr_all_vap; [exact C|apply M2]]|].
-    destruct (call_bubble_sim c c' _ _ C M2) as (M3 & EB).
-    destruct (call_bubble orc c m2) as [m3 [Pb yb]]. destruct (call_bubble orc' c' m2') as [m3' r']. cbn [fst snd] in *. subst r'.
+    destruct (call_bubble_sim c c' T _ _ C M2) as (M3 & EB).
+    destruct (call_bubble orc c _ m2) as [m3 [Pb yb]]. destruct (call_bubble orc' c' _ m2') as [m3' r']. cbn [fst snd] in *. subst r'.
     rewrite (nzb_qr _ _ FL).
     destruct (qleb Pb P && negb (nzb (Flight c))); [apply mr_mset; [exact M3|apply sr_all_liq; [exact C|apply M3]]|].
     rewrite (refresh_K_sim c c' _ _ yb xd C NZV (Qeq_refl _)).
     destruct (refresh_K_raises c _ yb xd); [split; [reflexivity|exact M3]|].
-    destruct (solve_v_sim c c' _ _ C M3) as (M4 & V4).
-    destruct (solve_v orc c m3) as [m4 v]. destruct (solve_v orc' c' m3') as [m4' v']. cbn [fst snd] in *.
+    destruct (solve_v_sim c c' T P _ _ C M3) as (M4 & V4).
+    destruct (solve_v orc c _ _ m3) as [m4 v]. destruct (solve_v orc' c' _ _ m3') as [m4' v']. cbn [fst snd] in *.
     apply mr_mset; [exact M4|apply sr_set_flows; [exact C|apply M4|exact V4]].
   - split; [reflexivity|apply mr_mset; assumption].
   - destruct SS as (-> & SA). split; [reflexivity|apply mr_mset; assumption].
 Qed.
 
 (* ------------------------------------------------------------------ T,V and P,V *)
-Lemma evals_v_sim c c' pts : cr c c' -> forall m m' vl vl', mr m m' -> vr vl vl' ->
-  mr (fst (evals_v orc c pts m vl)) (fst (evals_v orc' c' pts m' vl')) /\
-  vr (snd (evals_v orc c pts m vl)) (snd (evals_v orc' c' pts m' vl')).
+Lemma sv_sim (c c' : ctx) (isT : bool) (a x : Q) (m m' : mach) : cr c c' -> mr m m' ->
+  mr (fst (if isT then solve_v orc c a x m else solve_v orc c x a m)) (fst (if isT then solve_v orc' c' a x m' else solve_v orc' c' x a m')) /\
+  vr (snd (if isT then solve_v orc c a x m else solve_v orc c x a m)) (snd (if isT then solve_v orc' c' a x m' else solve_v orc' c' x a m')).
+Proof. intros C M. destruct isT; apply solve_v_sim; assumption. Qed.
+
+Lemma evals_v_sim c c' isT a pts : cr c c' -> forall m m' vl vl', mr m m' -> vr vl vl' ->
+  mr (fst (evals_v orc c isT a pts m vl)) (fst (evals_v orc' c' isT a pts m' vl')) /\
+  vr (snd (evals_v orc c isT a pts m vl)) (snd (evals_v orc' c' isT a pts m' vl')).
 Proof.
   intros C. induction pts as [|x t IH]; intros m m' vl vl' M V; cbn [evals_v]; [split; assumption|].
-  destruct (solve_v_sim c c' _ _ C M) as (M1 & V1).
-  destruct (solve_v orc c m) as [m1 v]. destruct (solve_v orc' c' m') as [m1' v']. cbn [fst snd] in *.
+  destruct (sv_sim c c' isT a x _ _ C M) as (M1 & V1).
+  destruct (if isT then solve_v orc c a x m else solve_v orc c x a m) as [m1 v].
+  destruct (if isT then solve_v orc' c' a x m' else solve_v orc' c' x a m') as [m1' v']. cbn [fst snd] in *.
   apply IH; assumption.
 Qed.
 
@@ -576,30 +582,37 @@ Lemma set_XV_multi_sim c c' isT V0 m m' : cr c c' -> ~ Fvle c == 0 -> mr m m' ->
 Proof.
   intros C NZV M. pose proof C as (I & MV & _ & FL & FH & FV & FM & _). pose proof OS as (_ & _ & _ & OLl & OLh & _ & _ & OQ & _).
   unfold set_XV_multi. rewrite (adj_V_sim c c' V0 C), (nzb_qr _ _ FL), (nzb_qr _ _ FH), OLl, OLh.
+  assert (EA : (if isT then sT (ms m') else sP (ms m')) = (if isT then sT (ms m) else sP (ms m)))
+    by (destruct M as ((_ & _ & _ & ET & EP) & _); destruct isT; assumption).
+  rewrite EA. set (a := if isT then sT (ms m) else sP (ms m)). cbv zeta.
   set (V := adj_V c V0).
   destruct (qeqb V 1 && (isT || negb (nzb (Fheavy c)))).
-  { destruct (call_dew_sim c c' _ _ C M) as (M2 & ED).
-    destruct (call_dew orc c m) as [m2 d]. destruct (call_dew orc' c' m') as [m2' d']. cbn [fst snd] in *. subst d'.
+  { destruct (call_dew_sim c c' a _ _ C M) as (M2 & ED).
+    destruct (call_dew orc c a m) as [m2 d]. destruct (call_dew orc' c' a m') as [m2' d']. cbn [fst snd] in *. subst d'.
     apply mr_mset; [exact M2|apply sr_set_other, sr_all_vap; [exact C|apply M2]]. }
   destruct (qeqb V 0 && (isT || negb (nzb (Flight c)))).
-  { destruct (call_bubble_sim c c' _ _ C M) as (M2 & ED).
-    destruct (call_bubble orc c m) as [m2 d]. destruct (call_bubble orc' c' m') as [m2' d']. cbn [fst snd] in *. subst d'.
+  { destruct (call_bubble_sim c c' a _ _ C M) as (M2 & ED).
+    destruct (call_bubble orc c a m) as [m2 d]. destruct (call_bubble orc' c' a m') as [m2' d']. cbn [fst snd] in *. subst d'.
     apply mr_mset; [exact M2|apply sr_set_other, sr_all_liq; [exact C|apply M2]]. }
-  destruct (call_bubble_sim c c' _ _ C M) as (M2 & EB).
-  destruct (call_bubble orc c m) as [m2 [Xb yb]]. destruct (call_bubble orc' c' m') as [m2' b']. cbn [fst snd] in *. subst b'.
-  destruct (call_dew_sim c c' _ _ C M2) as (M3 & ED).
-  destruct (call_dew orc c m2) as [m3 [Xd xd]]. destruct (call_dew orc' c' m2') as [m3' d']. cbn [fst snd] in *. subst d'.
+  destruct (call_bubble_sim c c' a _ _ C M) as (M2 & EB).
+  destruct (call_bubble orc c a m) as [m2 [Xb yb]]. destruct (call_bubble orc' c' a m') as [m2' b']. cbn [fst snd] in *. subst b'.
+  destruct (call_dew_sim c c' a _ _ C M2) as (M3 & ED).
+  destruct (call_dew orc c a m2) as [m3 [Xd xd]]. destruct (call_dew orc' c' a m2') as [m3' d']. cbn [fst snd] in *. subst d'.
   rewrite (refresh_K_sim c c' _ _ yb xd C NZV (Qeq_refl _)).
   destruct (refresh_K_raises c V yb xd); [split; [reflexivity|exact M3]|].
-  destruct (solve_v_sim c c' _ _ C M3) as (M4 & V4).
-  destruct (solve_v orc c m3) as [m4 vb]. destruct (solve_v orc' c' m3') as [m4' vb']. cbn [fst snd] in *.
+  set (Xb' := if nzb (Flight c) then c_01 * o_lim_light orc + c_09 * Xb else Xb).
+  set (Xd' := if nzb (Fheavy c) then c_01 * o_lim_heavy orc + c_09 * Xd else Xd).
+  destruct (sv_sim c c' isT a Xb' _ _ C M3) as (M4 & V4).
+  destruct (if isT then solve_v orc c a Xb' m3 else solve_v orc c Xb' a m3) as [m4 vb].
+  destruct (if isT then solve_v orc' c' a Xb' m3' else solve_v orc' c' Xb' a m3') as [m4' vb']. cbn [fst snd] in *.
   assert (EVb : qsum vb' / Fvle c' == qsum vb / Fvle c) by (apply (qr_div (qsum vb) (Fvle c)); [apply vr_qsum; exact V4|exact FV|exact NZV]).
   rewrite EVb.
   destruct (qltb V (qsum vb / Fvle c)).
   { cbn [rm]. apply mr_tick, mr_mset; [exact M4|]. apply sr_set_flows; [exact C|apply sr_set_other; apply M4|].
     apply capv_qr_vr; [|exact MV]. apply vr_vscale_r. unfold qr in *. rewrite FM. ring. }
-  destruct (solve_v_sim c c' _ _ C M4) as (M5 & V5).
-  destruct (solve_v orc c m4) as [m5 vd]. destruct (solve_v orc' c' m4') as [m5' vd']. cbn [fst snd] in *.
+  destruct (sv_sim c c' isT a Xd' _ _ C M4) as (M5 & V5).
+  destruct (if isT then solve_v orc c a Xd' m4 else solve_v orc c Xd' a m4) as [m5 vd].
+  destruct (if isT then solve_v orc' c' a Xd' m4' else solve_v orc' c' Xd' a m4') as [m5' vd']. cbn [fst snd] in *.
   assert (EVd : qsum vd' / Fvle c' == qsum vd / Fvle c) by (apply (qr_div (qsum vd) (Fvle c)); [apply vr_qsum; exact V5|exact FV|exact NZV]).
   rewrite EVd.
   destruct (qltb (qsum vd / Fvle c) V).
@@ -607,8 +620,8 @@ Proof.
     apply vr_vsub; [exact MV|]. apply capv_qr_vr; [|exact MV]. apply vr_vscale_r. unfold qr in *. rewrite FM. ring. }
   destruct M5 as (S5 & K5). rewrite K5, OQ.
   destruct (o_iq orc (mk m5)) as [pts X].
-  destruct (evals_v_sim c c' pts C (tick m5) (tick m5') vd vd') as (M6 & V6); [apply mr_tick; split; assumption|exact V5|].
-  destruct (evals_v orc c pts (tick m5) vd) as [m6 v6]. destruct (evals_v orc' c' pts (tick m5') vd') as [m6' v6']. cbn [fst snd] in *.
+  destruct (evals_v_sim c c' isT a pts C (tick m5) (tick m5') vd vd') as (M6 & V6); [apply mr_tick; split; assumption|exact V5|].
+  destruct (evals_v orc c isT a pts (tick m5) vd) as [m6 v6]. destruct (evals_v orc' c' isT a pts (tick m5') vd') as [m6' v6']. cbn [fst snd] in *.
   cbn [rm]. apply mr_tick, mr_mset; [exact M6|]. apply sr_set_flows; [exact C|apply sr_set_other; apply M6|exact V6].
 Qed.
 
@@ -645,8 +658,8 @@ Lemma herr_eval_sim c c' T P m m' : cr c c' -> ~ Fmass c == 0 -> mr m m' ->
   snd (herr_eval orc' c' T P m') == snd (herr_eval orc c T P m).
 Proof.
   intros C NZ M. unfold herr_eval.
-  destruct (solve_v_sim c c' _ _ C M) as (M1 & V1).
-  destruct (solve_v orc c m) as [m1 v]. destruct (solve_v orc' c' m') as [m1' v']. cbn [fst snd] in *.
+  destruct (solve_v_sim c c' T P _ _ C M) as (M1 & V1).
+  destruct (solve_v orc c _ _ m) as [m1 v]. destruct (solve_v orc' c' _ _ m') as [m1' v']. cbn [fst snd] in *.
   assert (M2 : mr (mset m1 (set_flows c v (ms m1))) (mset m1' (set_flows c' v' (ms m1'))))
     by (apply mr_mset; [exact M1|apply sr_set_flows; [exact C|apply M1|exact V1]]).
   destruct (call_xH_sim _ _ T P M2) as (M3 & HX).
@@ -675,8 +688,8 @@ Proof.
     pose proof C as (_ & _ & FMs & FL & FH & FV & _ & EN). rewrite EN.
     destruct (cN c =? 0); [split; [reflexivity|exact M1]|].
     destruct (cN c =? 1); [apply th_chemical_sim; assumption|].
-    destruct (call_dew_sim c c' _ _ C M1) as (M2 & ED).
-    destruct (call_dew orc c _) as [m2 [Pd xd]]. destruct (call_dew orc' c' _) as [m2' r']. cbn [fst snd] in *. subst r'.
+    destruct (call_dew_sim c c' T _ _ C M1) as (M2 & ED).
+    destruct (call_dew orc c _ _) as [m2 [Pd xd]]. destruct (call_dew orc' c' _ _) as [m2' r']. cbn [fst snd] in *. subst r'.
     rewrite (nzb_qr _ _ FH), OLh.
     set (Pd2 := if nzb (Fheavy c) then (1 # 2) * Pd + (1 # 2) * o_lim_heavy orc else Pd).
     assert (M3 : mr (mset m2 (all_vap c (ms m2))) (mset m2' (all_vap c' (ms m2'))))
@@ -685,8 +698,8 @@ Proof.
     destruct (call_xH orc _ T Pd2) as [m4 Hd]. destruct (call_xH orc' _ T Pd2) as [m4' Hd']. cbn [fst snd] in *.
     rewrite (qleb_qr _ _ _ _ qr_0 (qr_sub _ _ _ _ (qr_kH H) HD)).
     destruct (qleb 0 (H - Hd)) eqn:C1; [split; [reflexivity|exact M4]|].
-    destruct (call_bubble_sim c c' _ _ C M4) as (M5 & EB).
-    destruct (call_bubble orc c m4) as [m5 [Pb yb]]. destruct (call_bubble orc' c' m4') as [m5' r']. cbn [fst snd] in *. subst r'.
+    destruct (call_bubble_sim c c' T _ _ C M4) as (M5 & EB).
+    destruct (call_bubble orc c _ m4) as [m5 [Pb yb]]. destruct (call_bubble orc' c' _ m4') as [m5' r']. cbn [fst snd] in *. subst r'.
     rewrite (nzb_qr _ _ FL).
     set (Pb2 := if nzb (Flight c) then 2 * Pb else Pb).
     assert (M6 : mr (mset m5 (all_liq c (ms m5))) (mset m5' (all_liq c' (ms m5'))))
@@ -800,8 +813,8 @@ Proof.
     destruct (call_solveT orc _ H _ P) as [m2 t]. destruct (call_solveT orc' _ (k * H) _ P) as [m2' t']. cbn [fst snd] in *.
     cbn [rmw]. apply mrw_with_T; assumption. }
   destruct (cN c =? 1); [cbn [rmw]; apply ph_chemical_sim; assumption|].
-  destruct (call_bubble_sim c c' _ _ C M1) as (M2 & EB).
-  destruct (call_bubble orc c _) as [m2 [Tb0 yb]]. destruct (call_bubble orc' c' _) as [m2' r']. cbn [fst snd] in *. subst r'.
+  destruct (call_bubble_sim c c' P _ _ C M1) as (M2 & EB).
+  destruct (call_bubble orc c _ _) as [m2 [Tb0 yb]]. destruct (call_bubble orc' c' _ _) as [m2' r']. cbn [fst snd] in *. subst r'.
   rewrite (nzb_qr _ _ FL), OLl.
   set (Tb := if nzb (Flight c) then c_09 * Tb0 + c_01 * o_lim_light orc else Tb0).
   assert (M3 : mr (mset m2 (all_liq c (ms m2))) (mset m2' (all_liq c' (ms m2'))))
@@ -813,8 +826,8 @@ Proof.
   { destruct (call_solveT_sim _ _ H Tb P M4) as (M5 & ET).
     destruct (call_solveT orc m4 H Tb P) as [m5 t]. destruct (call_solveT orc' m4' (k * H) Tb P) as [m5' t']. cbn [fst snd] in *.
     cbn [rmw]. apply mrw_with_T; assumption. }
-  destruct (call_dew_sim c c' _ _ C M4) as (M5 & ED).
-  destruct (call_dew orc c m4) as [m5 [Td0 xd]]. destruct (call_dew orc' c' m4') as [m5' r']. cbn [fst snd] in *. subst r'.
+  destruct (call_dew_sim c c' P _ _ C M4) as (M5 & ED).
+  destruct (call_dew orc c _ m4) as [m5 [Td0 xd]]. destruct (call_dew orc' c' _ m4') as [m5' r']. cbn [fst snd] in *. subst r'.
   rewrite (nzb_qr _ _ FH), OLh.
   destruct (if qleb Td0 Tb then (Tb + (1 # 2), Td0 - (1 # 2)) else (Td0, Tb)) as [Td1 Tb1].
   set (Td := if nzb (Fheavy c) then c_09 * Td1 + c_01 * o_lim_heavy orc else Td1).
